@@ -504,6 +504,17 @@ def clip(
     if np.__version__ < "2.1.0" and a_min is None and a_max is None:  # pragma: no cover
         raise ValueError("`a_min` and `a_max` cannot both be set to `None`")
 
+    if out is not None and a_min is not None and a_max is not None:
+        # The clip is carried out in two steps that both write to `out`.
+        # Make sure that the second step cannot fail after the first one has
+        # already written: all the operands must broadcast to `out`'s shape.
+        shape = np.broadcast_shapes(*(np.shape(x) for x in (a, a_min, a_max)))
+        if shape != np.shape(out):
+            raise ValueError(
+                f"non-broadcastable output operand with shape {np.shape(out)} "
+                f"doesn't match the broadcast shape {shape}"
+            )
+
     if a_min is not None:
         a = maximum(a_min, a, out=out, constant=constant)
 
